@@ -420,7 +420,8 @@ theorem meta_bijective_hlsl {p : Params} (hp : ParamsOk p) {dflt : Nat} {ds : Li
       rw [bindingsAt_setInlines h g, bindingsAt_registerAll, bindingsAt_nil, List.nil_append, List.map_map]
       exact events_names (fun _ => hlslEvent_ok) g ds res.bindings 0 evs hag hev
 
-/-- Metal: the same, up to the per-group sort by slot (a permutation; see `msl_sort_keeps_sorted`). -/
+/-- Metal: the same, up to the per-group sort by slot (a permutation; `meta_bijective_msl_exact` removes
+    the "up to" for the parameter sets without buffer addresses, i.e. for Metal itself). -/
 theorem meta_bijective_msl {p : Params} (hp : ParamsOk p) {dflt : Nat} {usedAt : Nat → Bool} {ds : List MDecl}
     {groups : List Group} (h : mslMeta p dflt usedAt ds = .ok groups) (g : Nat) :
     ((bindingsAt groups g).map (·.name)).Perm (boundNames p dflt g ds) := by
@@ -441,6 +442,44 @@ theorem meta_bijective_msl {p : Params} (hp : ParamsOk p) {dflt : Nat} {usedAt :
         rw [bindingsAt_registerAll, bindingsAt_nil, List.nil_append, List.map_map] at this
         rw [← hn]
         exact this
+
+/-- Metal, exact form: the sort never reorders what the allocator produced, so per bind group the entries
+    are the externally bound declarations in declaration order. -/
+theorem meta_bijective_msl_exact {p : Params} (hsba : p.supportBufferAddress = false) {dflt : Nat}
+    {usedAt : Nat → Bool} {ds : List MDecl} {groups : List Group}
+    (h : mslMeta p dflt usedAt ds = .ok groups) (g : Nat) :
+    (bindingsAt groups g).map (·.name) = boundNames p dflt g ds := by
+  have hp : ParamsOk p := by intro hb; rw [hsba] at hb; cases hb
+  unfold mslMeta at h
+  split at h
+  · cases h
+  · rename_i res hres
+    split at h
+    · cases h
+    · rename_i evs hev
+      have hag := RsslVerif.Thm.C06.binding_complete hp hres
+      have hgood := assign_good hres
+      have hidx := all_index hsba _ _ hag hgood
+      simp only at h
+      split at h
+      · cases h
+      · have hid : sortGroups (registerAll evs []) = .ok (registerAll evs []) := by
+          apply sortGroups_id
+          intro grp hgrp
+          obtain ⟨k, hk⟩ := List.getElem?_of_mem hgrp
+          have hb : bindingsAt (registerAll evs []) k = grp.bindings := by simp [bindingsAt, hk]
+          rw [bindingsAt_registerAll, bindingsAt_nil, List.nil_append] at hb
+          have hl := events_locs (fun i => mslEvent_ok (usedAt i)) k ds res.bindings 0 evs hag hev
+          have hr := indexRanges_locs (p := p) (dflt := dflt) k _ _ hag hidx
+          have htile := RsslVerif.Thm.C06.index_ranges_tile hp hres k
+          apply sortGroup_id (ks := (RsslVerif.Spec.Slots.indexRanges p k (ds.map MDecl.toSlot) res.bindings).map (·.1))
+          · rw [← hb, List.map_map, List.map_map]
+            exact hl.trans hr.symm
+          · exact (List.pairwise_map).2 (tiles_sorted htile).2
+        rw [hid] at h
+        cases h
+        rw [bindingsAt_registerAll, bindingsAt_nil, List.nil_append, List.map_map]
+        exact events_names (fun i => mslEvent_ok (usedAt i)) g ds res.bindings 0 evs hag hev
 
 /-- the Metal sort does not reorder a group whose slots are already non-decreasing (which C06's
     `index_ranges_tile` guarantees for the allocator's output) -/
